@@ -294,6 +294,9 @@ func (r *Run) after(st Step, msg sdk.Msg, res StepResult) {
 		r.digests[len(r.digests)-1] += ":" + hash
 		r.pre = r.w.TakeSnap()
 		r.mon.stats.Hits["C20/app-hash-formed"]++
+		// the committed block is now what a node serves: let the repository's client code find
+		// the requests of this block again from their IDs
+		checkClientRecovery(r.mon, sc)
 	}
 	r.lastRes = res
 	if len(r.hist.Steps) >= r.maxSteps {
